@@ -37,6 +37,7 @@ func PanicSites(r *core.Run, sc *Scope, bce *BCE, table string) {
 		info := f.Pkg.TypesInfo
 		sortIface := isSortMethod(f)
 		checkP4a(r, f, table)
+		checkP4b(r, f, table)
 		f.InspectOwn(func(n ast.Node) bool {
 			switch x := n.(type) {
 			case *ast.CallExpr:
